@@ -94,6 +94,16 @@ def run(ctx):
                 cov["in_progress_rerun"] += 1
             if ok:
                 cov["resumed_ok"] += 1
+                # the same restart with the client's next reply arriving while the new process is still starting up
+                if any(a[0] == "hr" for a in S.accepted_externals(spec, o.prefix)) and not returned and not sent:
+                  for turns in (0, 1, 2, 3):
+                    oe = S.crash_case(spec, store, ctx.scratch, "c13_%d_%d_e%d" % (wi, k, turns), k, eager=turns)
+                    cov["eager_replies"] = cov.get("eager_replies", 0) + 1
+                    if oe.eager_sent == "accepted" and not same_end(oe.record, base.record):
+                        fails.append(("startup-reply", "stopped after persisted tick %d of %d; a reply sent while the new process was "
+                                      "starting up was accepted, yet the handler ends %s, the uninterrupted run ends %s"
+                                      % (k, n_ticks, S.e_record(oe.record), S.e_record(base.record)), dict(meta, eager=turns)))
+                        break
                 continue
             why = ("stopped after persisted tick %d of %d %s: after the restart the handler is %s, the uninterrupted run "
                    "ends %s" % (k, n_ticks, meta["prefix"][-2:], S.e_record(o.record), S.e_record(base.record)))
